@@ -928,6 +928,28 @@ def Pc.afterFirst : Pc → Bool
   | .treeWait _ => true
   | .done _ _ => true
 
+/-- pcs that only the hierarchy queries go through -/
+def Pc.tableOnly : Pc → Bool
+  | .lockTree => true
+  | .tabRead => true
+  | .gpNoCache => true
+  | .walkTab _ => true
+  | .treeWait _ => true
+  | .start => false
+  | .gpRead _ => false
+  | .yParsed _ => false
+  | .check _ => false
+  | .yChecked _ => false
+  | .publish _ _ => false
+  | .setDefs _ _ _ => false
+  | .yPublished _ _ _ => false
+  | .fill _ _ _ => false
+  | .unflag _ _ _ => false
+  | .readAnnot _ => false
+  | .waitFlag _ _ => false
+  | .walk _ => false
+  | .done _ _ => false
+
 /-- the pc refers to its own annotation `a` of document `d` (published by this thread) -/
 def Pc.made (d : Ref) (a : ARef) : Pc → Bool
   | .setDefs d' a' _ => d' == d && a' == a
@@ -981,6 +1003,7 @@ structure GInv (s : St) : Prop where
   tabIdx : ∀ p (a : ARef) (y : Ann) (x : DocObj), (s.recs p).tab = some a → s.anns[a]? = some y → s.docs[y.doc]? = some x →
     (s.recs p).completed ≤ x.idx
   diagD1 : ∀ (t : Nat) (th : Thread), s.ths[t]? = some th → th.kind = .diag → th.pc.afterFirst = true → th.d1 ≠ none
+  tabPc : ∀ (t : Nat) (th : Thread), s.ths[t]? = some th → th.pc.tableOnly = true → th.kind.wantsDefs = true
   readOk : ∀ (t : Nat) (th : Thread) (d : Ref), s.ths[t]? = some th → th.pc = .readAnnot d →
     ∃ x a y, s.docs[d]? = some x ∧ x.annot = some a ∧ s.anns[a]? = some y ∧ y.filled = true ∧
       (th.kind.wantsDefs = false → y.onlyDefs = false)
@@ -1000,22 +1023,23 @@ structure GInv (s : St) : Prop where
 
 theorem ginv_init (disk : Doc.Path → Doc.Text) (ops : List Op) (reqs : Reqs) : GInv (init disk ops reqs) := by
   constructor <;> intros <;> simp_all [init, Rec.fresh, reqThread, List.getElem?_map]
-  all_goals (try grind [Pc.made, Pc.reads, Pc.afterFirst, reqThread, analysing_iff, Pc.isDone])
+  all_goals (try grind [Pc.made, Pc.reads, Pc.afterFirst, Pc.tableOnly, reqThread, analysing_iff, Pc.isDone])
 
 /-! ## tactics for `GInv` -/
 
 macro "gcl" : tactic =>
   `(tactic| (intros; st_simp; grind [MPc.midOp, MPc.opPath, Pc.holds, Pc.owns, Pc.fills, Pc.setsDefs, Pc.symOk, Pc.made, Pc.reads,
-      Pc.afterFirst, Pc.isDone, analysing_iff, newDoc]))
+      Pc.afterFirst, Pc.tableOnly, Kind.wantsDefs, Pc.isDone, analysing_iff, newDoc]))
 
 /-- every clause of `GInv` except the two about `Good` -/
 macro "ginv_auto" hi:ident hg:ident : tactic =>
   `(tactic| (
-    refine ⟨?bad, ?aiLo, ?tabIdx, ?diagD1, ?readOk, ?madeOk, ?unflagOk, ?defsOk, ?walkOk, ?walkTabOk, ?treeOk, ?doneOk⟩
+    refine ⟨?bad, ?aiLo, ?tabIdx, ?diagD1, ?tabPc, ?readOk, ?madeOk, ?unflagOk, ?defsOk, ?walkOk, ?walkTabOk, ?treeOk, ?doneOk⟩
     case' bad => try (have := ($hg).bad; gcl)
     case' aiLo => try (have := ($hg).aiLo; have := ($hi).recIdle; gcl)
     case' tabIdx => try (have := ($hg).tabIdx; have := ($hg).aiLo; have := ($hi).thDoc; have := ($hi).thAnn; have := ($hi).annDoc; gcl)
     case' diagD1 => try (have := ($hg).diagD1; gcl)
+    case' tabPc => try (have := ($hg).tabPc; gcl)
     case' readOk => try (have := ($hg).readOk; have := ($hg).madeOk; have := ($hg).unflagOk; gcl)
     case' madeOk => try (have := ($hg).madeOk; gcl)
     case' unflagOk => try (have := ($hg).unflagOk; gcl)
@@ -1189,5 +1213,664 @@ theorem ginv_th_start {s s' : St} {t : Nat} {th : Thread} (hi : Inv s) (hg : GIn
   subst hs
   ginv_auto hi hg
   good_frame hg
+
+theorem ginv_th_lockTree {s s' : St} {t : Nat} {th : Thread} (hi : Inv s) (hg : GInv s)
+    (ht : s.ths[t]? = some th) (hpc : th.pc = .lockTree) (hs : stepTh s t th = some s') : GInv s' := by
+  unfold stepTh at hs
+  simp only [hpc] at hs
+  split at hs
+  · simp only [Option.some.injEq] at hs
+    subst hs
+    ginv_auto hi hg
+    good_frame hg
+  · simp at hs
+
+/-- `got` along a guarded schedule -/
+theorem ginv_got {s : St} {t : Nat} {th : Thread} {ph : Nat} {d : Ref} {x : DocObj} (hi : Inv s) (hg : GInv s)
+    (ht : s.ths[t]? = some th) (hx : s.docs[d]? = some x) (hp : x.p = th.p) (hlo : th.lo ≤ x.idx)
+    (hpc : th.pc = .gpRead ph ∨ th.pc = .yParsed ph) : GInv (got s t th ph d) := by
+  unfold got
+  split
+  · rename_i hk
+    obtain ⟨v, hv⟩ := docText_some hi hx
+    simp only [hv]
+    ginv_auto hi hg
+    case treeOk =>
+      refine gtree_set hg rfl (fun _ _ _ hh => hh) (fun _ => Nat.le_refl _) ?_
+      intro out hh; simp at hh
+    case doneOk =>
+      refine gdone_set hg rfl (fun _ _ _ hh => hh) ?_
+      intro out hi' hh
+      simp only [Pc.done.injEq] at hh
+      obtain ⟨h1, h2⟩ := hh
+      subst h1; subst h2
+      exact good_sym hi hk hx hp hlo hv
+  · split
+    · ginv_auto hi hg
+      good_frame hg
+    · ginv_auto hi hg
+      good_frame hg
+  · ginv_auto hi hg
+    good_frame hg
+
+theorem ginv_th_gpRead {s s' : St} {t : Nat} {th : Thread} {ph : Nat} (hi : Inv s) (hg : GInv s)
+    (ht : s.ths[t]? = some th) (hpc : th.pc = .gpRead ph) (hs : stepTh s t th = some s') : GInv s' := by
+  have hlo := hi.thLo t th ht
+  unfold stepTh at hs
+  simp only [hpc] at hs
+  split at hs
+  · rename_i d hd
+    simp only [Option.some.injEq] at hs
+    subst hs
+    obtain ⟨x, hx, hp, hc⟩ := hi.opened th.p d hd
+    exact ginv_got hi hg ht hx hp (by omega) (Or.inl hpc)
+  · rename_i hd
+    split at hs
+    · rename_i d hsv
+      simp only [Option.some.injEq] at hs
+      subst hs
+      obtain ⟨x, hx, hp, hc⟩ := hi.saved th.p d hd hsv
+      exact ginv_got hi hg ht hx hp (by omega) (Or.inl hpc)
+    · simp only [Option.some.injEq] at hs
+      subst hs
+      ginv_auto hi hg
+      good_frame hg
+
+theorem ginv_th_yParsed {s s' : St} {t : Nat} {th : Thread} {ph : Nat} (hi : Inv s) (hg : GInv s)
+    (ht : s.ths[t]? = some th) (hpc : th.pc = .yParsed ph) (hs : stepTh s t th = some s') : GInv s' := by
+  have hlo := hi.thParsed t th ph ht hpc
+  unfold stepTh at hs
+  simp only [hpc, Option.some.injEq] at hs
+  subst hs
+  have hnew : (s.docs ++ [newDoc th.p (s.recs th.p).diskIdx])[s.docs.length]? = some (newDoc th.p (s.recs th.p).diskIdx) := by simp
+  have hi1 : Inv ((s.pushDoc (newDoc th.p (s.recs th.p).diskIdx)).setRec th.p { s.recs th.p with saved := some s.docs.length }) := by
+    inv_auto hi
+    · exact symDone_main hi rfl (by texts_same)
+  have hg1 : GInv ((s.pushDoc (newDoc th.p (s.recs th.p).diskIdx)).setRec th.p { s.recs th.p with saved := some s.docs.length }) := by
+    ginv_auto hi hg
+    case treeOk => exact gtree_main hg rfl (by texts_same) (by started_same)
+    case doneOk => exact gdone_main hg rfl (by texts_same)
+  exact ginv_got (x := newDoc th.p (s.recs th.p).diskIdx) hi1 hg1 (by simpa using ht) (by simp) rfl (by simpa [newDoc] using hlo) (Or.inr hpc)
+
+theorem ginv_th_gpNoCache {s s' : St} {t : Nat} {th : Thread} (hi : Inv s) (hg : GInv s)
+    (ht : s.ths[t]? = some th) (hpc : th.pc = .gpNoCache) (hs : stepTh s t th = some s') : GInv s' := by
+  unfold stepTh at hs
+  simp only [hpc] at hs
+  split at hs
+  · simp only [Option.some.injEq] at hs
+    subst hs
+    ginv_auto hi hg
+    good_frame hg
+  · split at hs
+    · simp only [Option.some.injEq] at hs
+      subst hs
+      ginv_auto hi hg
+      good_frame hg
+    · simp only [Option.some.injEq] at hs
+      subst hs
+      have hnew : (s.docs ++ [newDoc th.p (s.recs th.p).diskIdx])[s.docs.length]? = some (newDoc th.p (s.recs th.p).diskIdx) := by simp
+      ginv_auto hi hg
+      good_frame hg
+
+theorem ginv_th_yChecked {s s' : St} {t : Nat} {th : Thread} {d : Ref} (hi : Inv s) (hg : GInv s)
+    (ht : s.ths[t]? = some th) (hpc : th.pc = .yChecked d) (hs : stepTh s t th = some s') : GInv s' := by
+  unfold stepTh at hs
+  simp only [hpc] at hs
+  split at hs
+  · simp at hs
+  · rename_i x hx
+    split at hs
+    · simp only [Option.some.injEq] at hs
+      subst hs
+      ginv_auto hi hg
+      good_frame hg
+    · simp only [Option.some.injEq] at hs
+      subst hs
+      ginv_auto hi hg
+      good_frame hg
+
+/-- an annotation that a reader about document record `p` can see is filled: otherwise its
+    filler and the reader would overlap on a document that is being annotated -/
+theorem filled_of_quiet {s : St} {t : Nat} {th : Thread} {a : ARef} {y : Ann} {x : DocObj} (hi : Inv s) (hq : Quiet s)
+    (ht : s.ths[t]? = some th) (han : th.analysing = true) (hnf : th.pc.fills = none)
+    (hy : s.anns[a]? = some y) (hx : s.docs[y.doc]? = some x) (hp : x.p = th.p) : y.filled = true := by
+  cases hf : y.filled with
+  | true => rfl
+  | false =>
+    exfalso
+    obtain ⟨tf, h1, h2⟩ := hi.filler a y hy hf
+    have hne : t ≠ y.by' := by
+      intro e; subst e; rw [ht] at h1; cases h1; rw [hnf] at h2; cases h2
+    -- the filler holds the annotated document
+    have hown : ∃ d h, tf.pc = .setDefs d a h ∨ tf.pc = .yPublished d a h ∨ tf.pc = .fill d a h := by
+      cases hpc : tf.pc <;> simp [hpc, Pc.fills] at h2 <;> subst h2 <;> simp
+    obtain ⟨d, hh, hown⟩ := hown
+    have ho : tf.pc.owns d a = true := by rcases hown with e | e | e <;> simp [e, Pc.owns]
+    have hd : tf.pc.holds d = true := by rcases hown with e | e | e <;> simp [e, Pc.holds]
+    obtain ⟨y', hy', hyd⟩ := hi.thAnn y.by' tf d a h1 ho
+    rw [hy] at hy'; cases hy'
+    obtain ⟨x', hx', hp', _⟩ := hi.thDoc y.by' tf d h1 hd
+    rw [hyd] at hx; rw [hx] at hx'; cases hx'
+    have := hq y.by' tf a t th h1 h2 ht hne (by rw [← hp, hp'])
+    rw [han] at this; cases this
+
+theorem ginv_th_tabRead {s s' : St} {t : Nat} {th : Thread} (hi : Inv s) (hg : GInv s) (hq : Quiet s)
+    (ht : s.ths[t]? = some th) (hpc : th.pc = .tabRead) (hk : th.kind ≠ .symbols) (hs : stepTh s t th = some s') : GInv s' := by
+  have han : th.analysing = true := by rw [analysing_iff]; simp [hpc, hk, Pc.isDone]
+  unfold stepTh at hs
+  simp only [hpc] at hs
+  split at hs
+  · rename_i a ha
+    simp only [Option.some.injEq] at hs
+    subst hs
+    obtain ⟨y, x, hy, hx, hp⟩ := hi.tabAnn th.p a ha
+    have hfl := filled_of_quiet hi hq ht han (by simp [hpc, Pc.fills]) hy hx hp
+    have hidx := hg.tabIdx th.p a y x ha hy hx
+    have hlo := (hg.aiLo t th ht han).2
+    ginv_auto hi hg
+    good_frame hg
+  · simp only [Option.some.injEq] at hs
+    subst hs
+    ginv_auto hi hg
+    good_frame hg
+
+theorem ginv_bad {s : St} (hg : GInv s) : GInv { s with badReads := s.badReads + 0 } :=
+  ⟨by simpa using hg.bad, hg.aiLo, hg.tabIdx, hg.diagD1, hg.tabPc, hg.readOk, hg.madeOk, hg.unflagOk, hg.defsOk, hg.walkOk, hg.walkTabOk,
+   hg.treeOk, hg.doneOk⟩
+
+theorem ginv_th_check {s s' : St} {t : Nat} {th : Thread} {d : Ref} (hi : Inv s) (hg : GInv s) (hq : Quiet s)
+    (ht : s.ths[t]? = some th) (hpc : th.pc = .check d) (hk : th.kind ≠ .symbols) (hs : stepTh s t th = some s') : GInv s' := by
+  have han : th.analysing = true := by rw [analysing_iff]; simp [hpc, hk, Pc.isDone]
+  obtain ⟨x, hx, hp, hlo⟩ := hi.thDoc t th d ht (by simp [hpc, Pc.holds])
+  unfold stepTh at hs
+  simp only [hpc, hx] at hs
+  split at hs
+  · rename_i a ha
+    obtain ⟨y, hy, hyd⟩ := hi.docAnn d x a hx ha
+    have hfl := filled_of_quiet hi hq ht han (by simp [hpc, Pc.fills]) hy (by rw [hyd]; exact hx) hp
+    split at hs
+    · rename_i hcond
+      simp only [Option.some.injEq] at hs
+      subst hs
+      have hun : s.unfilled a = false := by simp [St.unfilled, hy, hfl]
+      simp only [hun]
+      -- a full request that hits the cache sees a full annotation
+      have hdefs : th.kind.wantsDefs = false → y.onlyDefs = false := by
+        intro hw
+        rcases hg.defsOk d x a y hx ha hy with e | ⟨tf, h1, h2⟩
+        · rw [e]; simpa [hw] using hcond
+        · exfalso
+          have hne : t ≠ y.by' := by
+            intro e; subst e; rw [ht] at h1; cases h1; simp [hpc, Pc.setsDefs] at h2
+          have hfills : tf.pc.fills = some a := by
+            cases hpc' : tf.pc <;> simp [hpc', Pc.setsDefs] at h2
+            simp [Pc.fills, h2.2]
+          have hd : tf.pc.holds d = true := by
+            cases hpc' : tf.pc <;> simp [hpc', Pc.setsDefs] at h2
+            simp [Pc.holds, h2.1]
+          obtain ⟨x', hx', hp', _⟩ := hi.thDoc y.by' tf d h1 hd
+          rw [hx] at hx'; cases hx'
+          have := hq y.by' tf a t th h1 hfills ht hne (by rw [← hp, hp'])
+          rw [han] at this; cases this
+      have hg1 : GInv (s.setTh t { th with pc := .readAnnot d }) := by
+        ginv_auto hi hg
+        good_frame hg
+      exact ginv_bad hg1
+    · simp only [Option.some.injEq] at hs
+      subst hs
+      ginv_auto hi hg
+      good_frame hg
+  · simp only [Option.some.injEq] at hs
+    subst hs
+    ginv_auto hi hg
+    good_frame hg
+
+theorem reads_exists {s : St} {u : Nat} {thu : Thread} {a : ARef} (hi : Inv s) (hu : s.ths[u]? = some thu)
+    (hr : thu.pc.reads a = true) : ∃ y, s.anns[a]? = some y := by
+  cases hpc : thu.pc <;> simp [hpc, Pc.reads] at hr
+  · rename_i d a'
+    subst hr
+    obtain ⟨y, hy, _⟩ := hi.thAnn u thu d a' hu (by simp [hpc, Pc.owns])
+    exact ⟨y, hy⟩
+  · rename_i a'
+    subst hr
+    obtain ⟨y, _, hy, _⟩ := hi.thWalk u thu a' hu hpc
+    exact ⟨y, hy⟩
+
+theorem ginv_th_publish {s s' : St} {t : Nat} {th : Thread} {d : Ref} {held : Bool} (hi : Inv s) (hg : GInv s)
+    (hq' : Quiet s') (ht : s.ths[t]? = some th) (hpc : th.pc = .publish d held) (hk : th.kind ≠ .symbols)
+    (hs : stepTh s t th = some s') : GInv s' := by
+  obtain ⟨x, hx, hp, hlo⟩ := hi.thDoc t th d ht (by simp [hpc, Pc.holds])
+  unfold stepTh at hs
+  simp only [hpc, hx, Option.some.injEq] at hs
+  subst hs
+  have hnew : (s.anns ++ [({ doc := d, by' := t, onlyDefs := th.kind.wantsDefs, filled := false } : Ann)])[s.anns.length]? =
+      some { doc := d, by' := t, onlyDefs := th.kind.wantsDefs, filled := false } := by simp
+  have htl : t < s.ths.length := (List.getElem?_eq_some_iff.mp ht).1
+  -- nobody else who analyses the same record is in flight: the stepping thread now fills
+  have alone : ∀ (u : Nat) (thu : Thread), s.ths[u]? = some thu → u ≠ t → thu.p = th.p → thu.analysing = false := by
+    intro u thu hu hne hpu
+    refine hq' t { th with pc := .setDefs d s.anns.length held } s.anns.length u thu ?_ ?_ ?_ hne hpu
+    · simp [htl]
+    · simp [Pc.fills]
+    · simp [hne.symm, hu]
+  have hdocs := hi.thDoc
+  have hanl : ∀ (a : ARef) (y : Ann), s.anns[a]? = some y → a < s.anns.length := fun a y h => (List.getElem?_eq_some_iff.mp h).1
+  -- another thread that holds the same document would overlap with the stepping thread
+  have other : ∀ (u : Nat) (thu : Thread), s.ths[u]? = some thu → u ≠ t → thu.pc.holds d = true → False := by
+    intro u thu hu hne hh
+    obtain ⟨x', hx', hp', _⟩ := hi.thDoc u thu d hu hh
+    rw [hx] at hx'; cases hx'
+    have hks : thu.kind ≠ .symbols := fun e => by
+      have := hi.symPc u thu hu e
+      cases hpcu : thu.pc <;> simp [hpcu, Pc.symOk, Pc.holds] at this hh
+    have : thu.analysing = true := by
+      rw [analysing_iff]
+      refine ⟨?_, ?_, hks⟩ <;> (cases hpcu : thu.pc <;> simp [hpcu, Pc.holds, Pc.isDone] at hh ⊢)
+    rw [alone u thu hu hne (by rw [← hp', hp])] at this
+    cases this
+  have hdl : d < s.docs.length := (List.getElem?_eq_some_iff.mp hx).1
+  ginv_auto hi hg
+  case tabIdx =>
+    intro q a y x' hq hy hx'
+    st_simp
+    obtain ⟨y0, x0, hy0, hx0, _⟩ := hi.tabAnn q a hq
+    rw [get_append_of_get hy0] at hy
+    cases hy
+    have := hg.tabIdx q a _ x0 hq hy0 hx0
+    by_cases e : d = y.doc
+    · subst e; simp [hdl] at hx'; subst hx'; rw [hx] at hx0; cases hx0; exact this
+    · simp [e] at hx'; rw [hx0] at hx'; cases hx'; exact this
+  case madeOk =>
+    intro u thu d' a' hu hm
+    st_simp
+    by_cases e : t = u
+    · subst e
+      simp [htl] at hu
+      subst hu
+      simp [Pc.made] at hm
+      obtain ⟨e1, e2⟩ := hm
+      cases e1; cases e2
+      refine ⟨{ x with annot := some s.anns.length }, { doc := d, by' := t, onlyDefs := th.kind.wantsDefs, filled := false }, ?_, rfl, ?_, rfl, rfl⟩
+      · simp [hdl]
+      · simp
+    · simp [e] at hu
+      have hne : d ≠ d' := by
+        intro e'; subst e'
+        refine other u thu hu (fun h => e h.symm) ?_
+        cases hpcu : thu.pc <;> simp [hpcu, Pc.made, Pc.holds] at hm ⊢ <;> exact hm.1
+      obtain ⟨x', y', h1, h2, h3, h4, h5⟩ := hg.madeOk u thu d' a' hu hm
+      exact ⟨x', y', by simp [hne, h1], h2, get_append_of_get h3, h4, h5⟩
+  case walkOk =>
+    intro u thu a y hu hr hy
+    st_simp
+    have hu' : s.ths[u]? = some thu ∧ u ≠ t := by
+      by_cases e : t = u
+      · subst e; simp [htl] at hu; subst hu; simp [Pc.reads] at hr
+      · simp [e] at hu; exact ⟨hu, fun h => e h.symm⟩
+    obtain ⟨y0, hy0⟩ := reads_exists hi hu'.1 hr
+    rw [get_append_of_get hy0] at hy
+    cases hy
+    exact hg.walkOk u thu a _ hu'.1 hr hy0
+  case defsOk =>
+    intro d' x' a' y' hx' ha' hy'
+    st_simp
+    by_cases e : d = d'
+    · subst e
+      have hdl : d < s.docs.length := (List.getElem?_eq_some_iff.mp hx).1
+      simp [hdl] at hx'
+      subst hx'
+      simp at ha'
+      subst ha'
+      simp at hy'
+      subst hy'
+      right
+      simp [htl, Pc.setsDefs]
+    · simp [e] at hx'
+      obtain ⟨y0, hy0, _⟩ := hi.docAnn d' x' a' hx' ha'
+      rw [get_append_of_get hy0] at hy'
+      cases hy'
+      rcases hg.defsOk d' x' a' _ hx' ha' hy0 with h1 | ⟨tf, h1, h2⟩
+      · exact Or.inl h1
+      · right
+        have hne : t ≠ y'.by' := by
+          intro e'; rw [← e', ht] at h1; cases h1; simp [hpc, Pc.setsDefs] at h2
+        exact ⟨tf, by simp [hne, h1], h2⟩
+  good_frame hg
+
+theorem ginv_th_setDefs {s s' : St} {t : Nat} {th : Thread} {d : Ref} {a : ARef} {held : Bool} (hi : Inv s) (hg : GInv s)
+    (hq : Quiet s) (ht : s.ths[t]? = some th) (hpc : th.pc = .setDefs d a held) (hs : stepTh s t th = some s') : GInv s' := by
+  obtain ⟨x, hx, hp, hlo⟩ := hi.thDoc t th d ht (by simp [hpc, Pc.holds])
+  obtain ⟨x1, y, hx1, hxa, hy, hyd, hyb⟩ := hg.madeOk t th d a ht (by simp [hpc, Pc.made])
+  rw [hx] at hx1; cases hx1
+  unfold stepTh at hs
+  simp only [hpc, hx, Option.some.injEq] at hs
+  subst hs
+  have htl : t < s.ths.length := (List.getElem?_eq_some_iff.mp ht).1
+  have hdl : d < s.docs.length := (List.getElem?_eq_some_iff.mp hx).1
+  ginv_auto hi hg
+  good_frame hg
+
+theorem ginv_th_yPublished {s s' : St} {t : Nat} {th : Thread} {d : Ref} {a : ARef} {held : Bool} (hi : Inv s) (hg : GInv s)
+    (ht : s.ths[t]? = some th) (hpc : th.pc = .yPublished d a held) (hk : th.kind ≠ .symbols)
+    (hs : stepTh s t th = some s') : GInv s' := by
+  have han : th.analysing = true := by rw [analysing_iff]; simp [hpc, hk, Pc.isDone]
+  obtain ⟨x, hx, hp, hlo⟩ := hi.thDoc t th d ht (by simp [hpc, Pc.holds])
+  obtain ⟨y, hy, hyd⟩ := hi.thAnn t th d a ht (by simp [hpc, Pc.owns])
+  have hlo' := (hg.aiLo t th ht han).2
+  have hmade := hg.madeOk t th d a ht (by simp [hpc, Pc.made])
+  unfold stepTh at hs
+  simp only [hpc, Option.some.injEq] at hs
+  subst hs
+  ginv_auto hi hg
+  good_frame hg
+
+theorem ginv_th_fill {s s' : St} {t : Nat} {th : Thread} {d : Ref} {a : ARef} {held : Bool} (hi : Inv s) (hg : GInv s)
+    (ht : s.ths[t]? = some th) (hpc : th.pc = .fill d a held) (hs : stepTh s t th = some s') : GInv s' := by
+  obtain ⟨x1, y, hx1, hxa, hy, hyd, hyb⟩ := hg.madeOk t th d a ht (by simp [hpc, Pc.made])
+  unfold stepTh at hs
+  simp only [hpc, hy, Option.some.injEq] at hs
+  subst hs
+  have hal : a < s.anns.length := (List.getElem?_eq_some_iff.mp hy).1
+  ginv_auto hi hg
+  good_frame hg
+
+theorem ginv_th_unflag {s s' : St} {t : Nat} {th : Thread} {d : Ref} {a : ARef} {held : Bool} (hi : Inv s) (hg : GInv s)
+    (ht : s.ths[t]? = some th) (hpc : th.pc = .unflag d a held) (hs : stepTh s t th = some s') : GInv s' := by
+  obtain ⟨x, hx, hp, hlo⟩ := hi.thDoc t th d ht (by simp [hpc, Pc.holds])
+  obtain ⟨x1, y, hx1, hxa, hy, hyd, hyb⟩ := hg.madeOk t th d a ht (by simp [hpc, Pc.made])
+  obtain ⟨y1, hy1, hfl⟩ := hg.unflagOk t th d a held ht hpc
+  rw [hy] at hy1; cases hy1
+  rw [hx] at hx1; cases hx1
+  unfold stepTh at hs
+  simp only [hpc, hx, Option.some.injEq] at hs
+  subst hs
+  have hdl : d < s.docs.length := (List.getElem?_eq_some_iff.mp hx).1
+  cases held
+  · simp only [Bool.false_eq_true, if_false]
+    ginv_auto hi hg
+    good_frame hg
+  · simp only [if_true]
+    ginv_auto hi hg
+    good_frame hg
+
+theorem ginv_th_readAnnot {s s' : St} {t : Nat} {th : Thread} {d : Ref} (hi : Inv s) (hg : GInv s)
+    (ht : s.ths[t]? = some th) (hpc : th.pc = .readAnnot d) (hs : stepTh s t th = some s') : GInv s' := by
+  obtain ⟨x, a, y, hx, hxa, hy, hfl, hdf⟩ := hg.readOk t th d ht hpc
+  unfold stepTh at hs
+  simp only [hpc, hx, Option.bind_some, hxa, Option.some.injEq] at hs
+  subst hs
+  split
+  · ginv_auto hi hg
+    good_frame hg
+  · ginv_auto hi hg
+    good_frame hg
+
+theorem ginv_th_waitFlag {s s' : St} {t : Nat} {th : Thread} {d : Ref} {a : ARef} (hi : Inv s) (hg : GInv s)
+    (ht : s.ths[t]? = some th) (hpc : th.pc = .waitFlag d a) (hs : stepTh s t th = some s') : GInv s' := by
+  have hw := hg.walkOk t th a
+  unfold stepTh at hs
+  simp only [hpc] at hs
+  split at hs
+  · simp at hs
+  · split at hs
+    · simp only [Option.some.injEq] at hs
+      subst hs
+      ginv_auto hi hg
+      good_frame hg
+    · simp at hs
+
+theorem ginv_th_treeWait {s s' : St} {t : Nat} {th : Thread} {o : Out} (hi : Inv s) (hg : GInv s)
+    (ht : s.ths[t]? = some th) (hpc : th.pc = .treeWait o) (hs : stepTh s t th = some s') : GInv s' := by
+  have hgd := hg.treeOk t th o ht hpc
+  unfold stepTh at hs
+  simp only [hpc] at hs
+  split at hs
+  · simp only [Option.some.injEq] at hs
+    subst hs
+    ginv_auto hi hg
+    case treeOk =>
+      refine gtree_set hg rfl (fun _ _ _ hh => hh) (fun _ => Nat.le_refl _) ?_
+      intro out hh; simp at hh
+    case doneOk =>
+      refine gdone_set hg rfl (fun _ _ _ hh => hh) ?_
+      intro out hi' hh
+      simp only [Pc.done.injEq] at hh
+      obtain ⟨h1, h2⟩ := hh
+      subst h1; subst h2
+      exact hgd
+  · simp at hs
+
+/-- the answer computed from a filled annotation of the right kind, for a request that has seen
+    exactly one version, is the solo answer for that version -/
+theorem outOf_ok {s : St} {t : Nat} {th : Thread} {a : ARef} {y : Ann} {x : DocObj} (hi : Inv s) (hg : GInv s)
+    (ht : s.ths[t]? = some th) (hk : th.kind ≠ .symbols) (hin : th.analysing = true)
+    (hd1 : th.kind = .diag → th.d1 ≠ none)
+    (hy : s.anns[a]? = some y) (hx : s.docs[y.doc]? = some x) (hp : x.p = th.p) (hlo : th.lo ≤ x.idx)
+    (hfl : y.filled = true) (hdf : th.kind.wantsDefs = false → y.onlyDefs = false) :
+    ∃ v, (s.recs th.p).texts[x.idx]? = some v ∧ x.idx ≤ (s.recs th.p).started ∧ outOf s th a = .ok (solo th.kind th.p v) := by
+  have hidx := hi.docIdx y.doc x hx
+  rw [hp] at hidx
+  have hlen := hi.recLen th.p
+  have hlt : x.idx < (s.recs th.p).texts.length := by omega
+  refine ⟨(s.recs th.p).texts[x.idx], List.getElem?_eq_getElem hlt, hidx, ?_⟩
+  have htext : s.annText a = some (s.recs th.p).texts[x.idx] := by
+    simp only [St.annText, hy, St.docText, hx, hp]
+    exact List.getElem?_eq_getElem hlt
+  have hun : s.unfilled a = false := by simp [St.unfilled, hy, hfl]
+  have hdo : s.defsOnly a = y.onlyDefs := by simp [St.defsOnly, hy]
+  unfold outOf
+  simp only [htext]
+  cases hkind : th.kind with
+  | symbols => exact absurd hkind hk
+  | diag =>
+    simp only
+    have h1 := hd1 hkind
+    cases hd : th.d1 with
+    | none => exact absurd hd h1
+    | some d1 =>
+      obtain ⟨x1, hx1, hp1, hlo1⟩ := hi.thD1 t th d1 ht hd
+      have hidx1 := hi.docIdx d1 x1 hx1
+      rw [hp1] at hidx1
+      obtain ⟨hmid, hlo'⟩ := hg.aiLo t th ht hin
+      have hidle := hi.recIdle th.p hmid
+      have e : x1.idx = x.idx := by omega
+      simp only [Option.bind_some, St.docText, hx1, hp1, e, List.getElem?_eq_getElem hlt, if_true]
+  | analysis b =>
+    simp only [hun, hdo, Kind.needsBodies, Bool.false_or]
+    have := hdf (by simp [hkind, Kind.wantsDefs])
+    simp [this]
+  | table u =>
+    simp only [hun, Kind.needsBodies, Bool.false_and, Bool.or_false]
+    simp
+
+theorem ginv_setBad {s : St} {n : Nat} (hg : GInv s) (hn : n = 0) : GInv { s with badReads := n } :=
+  ⟨hn, hg.aiLo, hg.tabIdx, hg.diagD1, hg.tabPc, hg.readOk, hg.madeOk, hg.unflagOk, hg.defsOk, hg.walkOk, hg.walkTabOk, hg.treeOk, hg.doneOk⟩
+
+theorem ginv_th_finish {s : St} {t : Nat} {th : Thread} {a : ARef} {y : Ann} {x : DocObj} (hi : Inv s) (hg : GInv s)
+    (ht : s.ths[t]? = some th) (hk : th.kind ≠ .symbols) (hpc : th.pc = .walk a ∨ th.pc = .walkTab a)
+    (hy : s.anns[a]? = some y) (hx : s.docs[y.doc]? = some x) (hp : x.p = th.p) (hlo : th.lo ≤ x.idx)
+    (hfl : y.filled = true) (hdf : th.kind.wantsDefs = false → y.onlyDefs = false) : GInv (finish s t th a) := by
+  have hin : th.analysing = true := by
+    rw [analysing_iff]; rcases hpc with e | e <;> simp [e, hk, Pc.isDone]
+  have hd1 : th.kind = .diag → th.d1 ≠ none := fun e => hg.diagD1 t th ht e (by rcases hpc with e' | e' <;> simp [e', Pc.afterFirst])
+  obtain ⟨v, hv, hle, hout⟩ := outOf_ok hi hg ht hk hin hd1 hy hx hp hlo hfl hdf
+  have hgood : Good s th (outOf s th a) (s.recs th.p).started := ⟨x.idx, v, hlo, hle, hv, hout⟩
+  have hun : s.unfilled a = false := by simp [St.unfilled, hy, hfl]
+  have hf0 : th.pc.fills = none := by rcases hpc with e | e <;> simp [e, Pc.fills]
+  unfold finish
+  simp only [hun]
+  have key : ∀ (s₁ : St) (pc : Pc), (pc = .done (outOf s th a) (s.recs th.p).started ∨ pc = .treeWait (outOf s th a)) →
+      (pc.tableOnly = true → th.kind.wantsDefs = true) → s₁.ths = s.ths → s₁.docs = s.docs → s₁.anns = s.anns → s₁.main = s.main → s₁.badReads = s.badReads →
+      (∀ q, (s₁.recs q).texts = (s.recs q).texts ∧ (s₁.recs q).diskIdx = (s.recs q).diskIdx ∧ (s₁.recs q).opened = (s.recs q).opened ∧
+        (s₁.recs q).saved = (s.recs q).saved ∧ (s₁.recs q).tab = (s.recs q).tab ∧ (s₁.recs q).started = (s.recs q).started ∧
+        (s₁.recs q).completed = (s.recs q).completed) →
+      GInv (s₁.setTh t { th with pc := pc }) := by
+    intro s₁ pc hpc' htab e1 e2 e3 e4 e6 e5
+    have hpc1 : (∀ d, pc ≠ .readAnnot d) ∧ (∀ d a, pc.made d a = false) ∧ (∀ d a h, pc ≠ .unflag d a h) ∧ (∀ a, pc.reads a = false) ∧
+        (∀ a, pc ≠ .walkTab a) ∧ pc.setsDefs = fun _ _ => false := by
+      rcases hpc' with rfl | rfl <;> simp [Pc.made, Pc.reads] <;> (funext d a; simp [Pc.setsDefs])
+    obtain ⟨hp1, hp2, hp3, hp4, hp5, hp6⟩ := hpc1
+    have hp7 : pc ≠ .start := by rcases hpc' with rfl | rfl <;> simp
+    have hsd0 : ∀ d a, th.pc.setsDefs d a = false := by intro d a; rcases hpc with e | e <;> simp [e, Pc.setsDefs]
+    refine ⟨?bad, ?aiLo, ?tabIdx, ?diagD1, ?tabPc, ?readOk, ?madeOk, ?unflagOk, ?defsOk, ?walkOk, ?walkTabOk, ?treeOk, ?doneOk⟩
+    case bad => have := hg.bad; st_simp; omega
+    case aiLo =>
+      have := hg.aiLo; intro u thu hu; have := e5 thu.p; have := e5 th.p; st_simp
+      grind [analysing_iff]
+    case tabIdx => have := hg.tabIdx; intro q a y x; have := e5 q; st_simp; grind
+    case diagD1 => have := hg.diagD1; intro u thu hu; st_simp; grind
+    case tabPc =>
+      have := hg.tabPc; intro u thu hu; st_simp
+      grind
+    case readOk => have := hg.readOk; intro u thu d hu; st_simp; grind
+    case madeOk => have := hg.madeOk; intro u thu d a hu; st_simp; grind
+    case unflagOk => have := hg.unflagOk; intro u thu d a h hu; st_simp; grind
+    case defsOk =>
+      have := hg.defsOk; intro d x a y; st_simp
+      grind
+    case walkOk => have := hg.walkOk; intro u thu a y hu; st_simp; grind
+    case walkTabOk => have := hg.walkTabOk; intro u thu a hu; st_simp; grind
+    case treeOk =>
+      refine gtree_set hg e1 ?_ ?_ ?_
+      · intro q i w hh; rw [(e5 q).1]; exact hh
+      · intro q; rw [(e5 q).2.2.2.2.2.1]; exact Nat.le_refl _
+      · intro out hh
+        rcases hpc' with rfl | rfl
+        · simp at hh
+        · simp only [Pc.treeWait.injEq] at hh
+          subst hh
+          show Good s₁ th _ _
+          rw [(e5 th.p).2.2.2.2.2.1]
+          exact good_mono hgood (fun i w hh => by rw [(e5 th.p).1]; exact hh)
+    case doneOk =>
+      refine gdone_set hg e1 ?_ ?_
+      · intro q i w hh; rw [(e5 q).1]; exact hh
+      · intro out hi' hh
+        rcases hpc' with rfl | rfl
+        · simp only [Pc.done.injEq] at hh
+          obtain ⟨h1, h2⟩ := hh
+          subst h1; subst h2
+          show Good s₁ th _ _
+          exact good_mono hgood (fun i w hh => by rw [(e5 th.p).1]; exact hh)
+        · simp at hh
+  refine ginv_setBad (key _ _ ?_ ?_ ?_ ?_ ?_ ?_ ?_ ?_) ?_
+  · split <;> simp
+  · split
+    · rename_i hkk _; intro _; simp [hkk, Kind.wantsDefs]
+    · intro hto; simp [Pc.tableOnly] at hto
+  · split <;> rfl
+  · split <;> rfl
+  · split <;> rfl
+  · split <;> rfl
+  · split <;> rfl
+  · intro q
+    split
+    · st_simp; split <;> simp_all
+    · simp
+  · have := hg.bad
+    simp [this]
+
+theorem ginv_stepTh {s s' : St} {t : Nat} {th : Thread} (hi : Inv s) (hg : GInv s) (hq : Quiet s) (hq' : Quiet s')
+    (hok : stepOk s (t + 1) = true) (ht : s.ths[t]? = some th) (hs : stepTh s t th = some s') : GInv s' := by
+  have hks : th.pc.symOk = false → th.kind ≠ .symbols := by
+    intro h e; rw [hi.symPc t th ht e] at h; cases h
+  cases hpc : th.pc with
+  | start =>
+    refine ginv_th_start hi hg (fun hk => thOk_of s t th hok ht hpc hk) ht hpc hs
+  | lockTree => exact ginv_th_lockTree hi hg ht hpc hs
+  | gpRead ph => exact ginv_th_gpRead hi hg ht hpc hs
+  | yParsed ph => exact ginv_th_yParsed hi hg ht hpc hs
+  | tabRead => exact ginv_th_tabRead hi hg hq ht hpc (hks (by simp [hpc, Pc.symOk])) hs
+  | gpNoCache => exact ginv_th_gpNoCache hi hg ht hpc hs
+  | check d => exact ginv_th_check hi hg hq ht hpc (hks (by simp [hpc, Pc.symOk])) hs
+  | yChecked d => exact ginv_th_yChecked hi hg ht hpc hs
+  | publish d held => exact ginv_th_publish hi hg hq' ht hpc (hks (by simp [hpc, Pc.symOk])) hs
+  | setDefs d a held => exact ginv_th_setDefs hi hg hq ht hpc hs
+  | yPublished d a held => exact ginv_th_yPublished hi hg ht hpc (hks (by simp [hpc, Pc.symOk])) hs
+  | fill d a held => exact ginv_th_fill hi hg ht hpc hs
+  | unflag d a held => exact ginv_th_unflag hi hg ht hpc hs
+  | readAnnot d => exact ginv_th_readAnnot hi hg ht hpc hs
+  | waitFlag d a => exact ginv_th_waitFlag hi hg ht hpc hs
+  | walk a =>
+    unfold stepTh at hs; simp only [hpc, Option.some.injEq] at hs; subst hs
+    obtain ⟨y, x, hy, hx, hp, hlo⟩ := hi.thWalk t th a ht hpc
+    obtain ⟨hfl, hdf⟩ := hg.walkOk t th a y ht (by simp [hpc, Pc.reads]) hy
+    exact ginv_th_finish hi hg ht (hks (by simp [hpc, Pc.symOk])) (Or.inl hpc) hy hx hp hlo hfl hdf
+  | walkTab a =>
+    unfold stepTh at hs; simp only [hpc, Option.some.injEq] at hs; subst hs
+    obtain ⟨y, x, hy, hx, hp⟩ := hi.thWalkTab t th a ht hpc
+    obtain ⟨y', x', hy', hx', hfl, hlo⟩ := hg.walkTabOk t th a ht hpc
+    rw [hy] at hy'; cases hy'
+    rw [hx] at hx'; cases hx'
+    have hw := hg.tabPc t th ht (by simp [hpc, Pc.tableOnly])
+    exact ginv_th_finish hi hg ht (hks (by simp [hpc, Pc.symOk])) (Or.inr hpc) hy hx hp hlo hfl (fun h => by rw [hw] at h; cases h)
+  | treeWait o => exact ginv_th_treeWait hi hg ht hpc hs
+  | done o hi' => unfold stepTh at hs; simp [hpc] at hs
+
+theorem ginv_step {s s' : St} {t : Tid} (hi : Inv s) (hg : GInv s) (hq : Quiet s) (hq' : Quiet s')
+    (hok : stepOk s t = true) (hs : step Cfg.repaired s t = some s') : GInv s' := by
+  cases t with
+  | zero => exact ginv_stepMain hi hg (mainOk_of s hok) hs
+  | succ t =>
+    simp only [step] at hs
+    split at hs
+    · simp at hs
+    · rename_i th ht
+      exact ginv_stepTh hi hg hq hq' hok ht hs
+
+/-- along a schedule that passes both guards, `Inv` and `GInv` hold in the final state -/
+theorem ginv_runG {s s' : St} (hi : Inv s) (hg : GInv s) (hq : Quiet s) (sched : List Tid)
+    (hr : runG Cfg.repaired s sched = some s') : Inv s' ∧ GInv s' := by
+  induction sched generalizing s with
+  | nil => simp only [runG, Option.some.injEq] at hr; subst hr; exact ⟨hi, hg⟩
+  | cons t rest ih =>
+    simp only [runG] at hr
+    split at hr
+    · rename_i hok
+      split at hr
+      · rename_i hq1
+        cases hs : step Cfg.repaired s t with
+        | none =>
+          simp only [hs, Option.getD_none] at hr hq1
+          exact ih hi hg hq hr
+        | some s1 =>
+          simp only [hs, Option.getD_some] at hr hq1
+          have hq1' := (quiet_iff s1).mp hq1
+          exact ih (inv_step hi hs) (ginv_step hi hg hq hq1' hok hs) hq1' hr
+      · simp at hr
+    · simp at hr
+
+theorem quiet_init (disk : Doc.Path → Doc.Text) (ops : List Op) (reqs : Reqs) : Quiet (init disk ops reqs) := by
+  intro t₁ th₁ a t₂ th₂ h1 hf _ _ _
+  simp only [init, List.getElem?_map] at h1
+  cases hr : reqs[t₁]? with
+  | none => simp [hr] at h1
+  | some kp => simp [hr, reqThread] at h1; subst h1; simp [Pc.fills] at hf
+
+theorem runG_eq_run {s s' : St} (cfg : Cfg) (sched : List Tid) (h : runG cfg s sched = some s') : s' = run cfg s sched := by
+  induction sched generalizing s with
+  | nil => simp only [runG, Option.some.injEq] at h; simp [run, h]
+  | cons t rest ih =>
+    simp only [runG] at h
+    split at h
+    · split at h
+      · simp only [run]; exact ih h
+      · simp at h
+    · simp at h
+
+/-- `solo` is the sequential M-DOC answer: a freshly started server whose file `p` has the text
+    `v` (a class without parent that refers to no other entity) answers documentSymbol from `v`
+    and the analysis requests from the chain `[(p, v)]` -/
+theorem solo_is_mdoc (cfg : Doc.Cfg) (lg : Doc.Lang) (norm : String → String) (fs : Doc.FS) (p : Doc.Path) (v : Doc.Text)
+    (hfs : fs p = some (.text v)) (hpar : lg.parentOf v = none) (hrefs : lg.refs v = []) :
+    (Doc.answer cfg lg norm fs Doc.Store.empty (.symbols p)).1 = solo .symbols p v ∧
+    (Doc.answer cfg lg norm fs Doc.Store.empty (.analysis p)).1 = solo (.analysis true) p v := by
+  constructor
+  · simp [Doc.answer, Doc.docSymbols, Doc.getParsed, Doc.getInfo, Doc.keyFor, hfs, Doc.Res.bind, Doc.Store.empty, Doc.Store.byPath,
+      Doc.lookup, Doc.Info.new, Doc.parseDisk, Doc.Store.modify, Doc.update, solo]
+  · simp [Doc.answer, Doc.analyzeFull, Doc.getParsed, Doc.getInfo, Doc.keyFor, hfs, Doc.Res.bind, Doc.Store.empty, Doc.Store.byPath,
+      Doc.lookup, Doc.Info.new, Doc.parseDisk, Doc.Store.modify, Doc.update, Doc.Doc.cachedFor, Doc.parentPath, hpar, hrefs,
+      Doc.annotate, Doc.install, Doc.Info.installed, solo]
 
 end Gold.Conc
